@@ -497,3 +497,28 @@ pub fn shrink(case: &Value) -> Vec<Value> {
     }
     out.into_iter().map(|d| serde_json::to_value(d).unwrap()).collect()
 }
+
+/// The proof (if any) that the Byzantine prover emits for one fault — for aggregator checks.
+pub fn byz_proof<C: GenericConfig<D, F = F>>(built: &Built<C>, st: &Statement, sched: &Sched, entropy: &Entropy, f: &PFault) -> Option<ProofWithPublicInputs<F, C, D>> {
+    let data = &built.data;
+    entropy.arm();
+    let g = sim_generate::<C>(built.honest_witness(st), data, f.gen_order, f.gen_write.as_ref());
+    let honest = g.witness.ok()?;
+    let ident: Vec<usize> = (0..honest.representative_map.len()).collect();
+    let w = match &f.cell {
+        Some((idx, kind, seed)) => {
+            let rep = honest.representative_map[*idx];
+            let old = honest.values[rep].unwrap_or(F::ZERO);
+            ident_witness(&honest, &ident, &[(*idx, new_value(old, kind, *seed))])
+        }
+        None => honest.clone(),
+    };
+    arm(sched, entropy);
+    f.knobs.arm();
+    let r = guarded(|| prove_with_partition_witness(&data.prover_only, &data.common, w, &mut TimingTree::default()));
+    Knobs::disarm();
+    match r {
+        Ok(Ok(p)) => Some(p),
+        _ => None,
+    }
+}
